@@ -43,7 +43,7 @@ func C18(c *Case) *Result {
 	heavy := 0
 	for i := range insts {
 		in := &c18inst{}
-		o := GenOpts{Cheap: true, MaxJobs: 8, MaxBlock: 16384, ExactHint: true, MaxChain: 3}
+		o := GenOpts{Cheap: true, MaxJobs: 8, MaxBlock: 16384, ExactHint: true, MaxChain: 3, SkipOpt: true}
 		if c.Thorough() {
 			o.MaxJobs = 16
 		}
